@@ -1182,10 +1182,19 @@ func (a *Act) exec(instr ssa.Instruction) {
 		a.curDesc = "map " + descOf(x.Map)
 		m := a.get(x.Map).(MapV)
 		a.mayPanic(m.isNil(), "assignment to entry in nil map")
-		a.mapUpdate(m.obj, a.get(x.Key), a.get(x.Value))
+		if len(m.more) == 0 {
+			a.mapUpdate(m.obj, a.get(x.Key), a.get(x.Value))
+		} else {
+			for _, al := range m.alts() {
+				a.mapUpdateG(al.obj, a.get(x.Key), a.get(x.Value), al.g)
+			}
+		}
 	case *ssa.Range:
 		a.curDesc = "map " + descOf(x.X)
 		m := a.get(x.X).(MapV)
+		if len(m.more) > 0 {
+			panic(unsupported("range over a map that may be one of several objects"))
+		}
 		n := 0
 		if m.obj != 0 {
 			n = len(a.st.heap[m.obj].v.(MapData).entries)
@@ -1541,11 +1550,11 @@ func (a *Act) lookup(x *ssa.Lookup) Value {
 		panic(unsupported("string index"))
 	}
 	key := a.get(x.Index)
-	a.recordMap(mv.obj, false)
 	val, ok := a.in.zeroVal(x.X.Type().Underlying().(*types.Map).Elem()), False
-	if mv.obj != 0 {
-		for _, e := range a.st.heap[mv.obj].v.(MapData).entries {
-			c := And(e.present, valEq(e.key, key), Not(mv.isNil()))
+	for _, al := range mv.alts() {
+		a.recordMap(al.obj, false)
+		for _, e := range a.st.heap[al.obj].v.(MapData).entries {
+			c := And(e.present, valEq(e.key, key), al.g)
 			val = iteVal(c, e.val, val)
 			ok = Or(ok, c)
 		}
@@ -1970,9 +1979,9 @@ func (a *Act) builtin(name string, args []Value) Value {
 			return ZeroExt(Var(fmt.Sprintf("strlen!%d", x.id.id), BVS(16)), 64)
 		case MapV:
 			n := BV(64, 0)
-			if x.obj != 0 {
-				for _, e := range a.st.heap[x.obj].v.(MapData).entries {
-					n = BvBin("bvadd", n, Ite(And(e.present, Not(x.isNil())), BV(64, 1), BV(64, 0)))
+			for _, al := range x.alts() {
+				for _, e := range a.st.heap[al.obj].v.(MapData).entries {
+					n = BvBin("bvadd", n, Ite(And(e.present, al.g), BV(64, 1), BV(64, 0)))
 				}
 			}
 			return n
@@ -1980,7 +1989,11 @@ func (a *Act) builtin(name string, args []Value) Value {
 	case "cap":
 		return args[0].(SliceV).cap
 	case "delete":
-		if m := args[0].(MapV); m.obj != 0 {
+		m := args[0].(MapV)
+		if len(m.more) > 0 {
+			panic(unsupported("delete on a map that may be one of several objects"))
+		}
+		if m.obj != 0 {
 			if !m.isNil().IsFalse() {
 				panic(unsupported("delete on a possibly nil map"))
 			}
